@@ -17,6 +17,7 @@ SeqToSet(s) == {s[i] : i \in 1..Len(s)}
 \*   viator     - through Tor.create_onion_service while the configuration is loading, next to another request
 \*   history    - "removed": a service from the same caller-held key was run and removed on this connection before;
 \*                "refused": Tor refused the first attempt to create a service from that key
+\*                (with via_tor both the earlier and the present creation go through one Tor object's create_onion_service)
 Histories == {"removed", "refused"}
 
 \* req.key: [kind |-> "none" | "discard" | "bare" | "prefixed" | "crlf", type, body]
